@@ -675,7 +675,7 @@ def model_specs(draw, profile=None):
             e = {}
             pairs = [(a, b) for a in pops for b in pops if a != b]
             for a, b in g.subset(pairs, min_size=1, max_size=3 if n_pops < 3 else 6):
-                u = g.pick(["rate", "rate", "number", "duration"])
+                u = g.pick(["rate", "rate", "number", "duration", "probability"])  # "probability" is the older spelling of a per-year rate, still accepted for transfers
                 ent = g.series(u, years, positive=(u == "duration"))
                 ent["u"] = u
                 if g.coin(0.2):
